@@ -21,6 +21,8 @@ VERIF = os.path.dirname(os.path.dirname(os.path.abspath(__file__)))
 PY = os.environ.get("VERIF_PYTHON", "/venv/bin/python")
 HUGR_SRC = os.environ.get("HUGR_SRC", "/repo/hugr-py/src")
 REPO_ROOT = os.environ.get("HUGR_REPO", "/repo")
+# development only: a second copy of the checks can run next to the first one (other tree, other output directories)
+OUTROOT = os.environ.get("VERIF_SCRATCH") or VERIF
 DEPS = os.path.join(VERIF, ".deps")
 
 
@@ -38,7 +40,7 @@ def child_env(hashseed: int) -> dict:
     env = dict(os.environ)
     env["PYTHONHASHSEED"] = str(hashseed % (2 ** 32))
     env["PYTHONPATH"] = os.pathsep.join([VERIF, HUGR_SRC, DEPS])
-    env["PYTHONPYCACHEPREFIX"] = os.path.join(VERIF, "out", "pycache")
+    env["PYTHONPYCACHEPREFIX"] = os.path.join(OUTROOT, "out", "pycache")
     env["HUGR_SRC"] = HUGR_SRC
     env["HUGR_REPO"] = REPO_ROOT
     env["VERIF_DIR"] = VERIF
@@ -140,7 +142,7 @@ def cmd_replay(path: str) -> int:
     ensure_deps()
     with open(path) as f:
         rp = json.load(f)
-    res = run_replay_file(path, os.path.join(VERIF, "out", rp["property"]))
+    res = run_replay_file(path, os.path.join(OUTROOT, "out", rp["property"]))
     if res.get("fatal"):
         print("HARNESS-ERROR", res["fatal"])
         print(res.get("traceback", ""))
@@ -165,12 +167,12 @@ def cmd_check(prop: str, tier: str, seed: int, workers: int) -> int:
     scale = float(os.environ.get("VERIF_SCALE", "1"))
     tc["runs"] = max(1, int(tc["runs"] * scale))
     ensure_deps()
-    outdir = os.path.join(VERIF, "out", prop)
+    outdir = os.path.join(OUTROOT, "out", prop)
     shutil.rmtree(outdir, ignore_errors=True)
     os.makedirs(outdir, exist_ok=True)
-    os.makedirs(os.path.join(VERIF, "evidence"), exist_ok=True)
-    os.makedirs(os.path.join(VERIF, "replays"), exist_ok=True)
-    evpath = os.path.join(VERIF, "evidence", f"{prop}.json")
+    os.makedirs(os.path.join(OUTROOT, "evidence"), exist_ok=True)
+    os.makedirs(os.path.join(OUTROOT, "replays"), exist_ok=True)
+    evpath = os.path.join(OUTROOT, "evidence", f"{prop}.json")
     known = load_known(prop)
     print(f"[{prop}] tier={tier} VERIF_SEED={seed} batches={tc['batches']} runs/batch={tc['runs']} "
           f"workers={workers} HUGR_SRC={HUGR_SRC}", flush=True)
@@ -265,7 +267,7 @@ def cmd_check(prop: str, tier: str, seed: int, workers: int) -> int:
     # confirm each new violation by replaying its file in a fresh interpreter
     reported = []
     for key, v in sorted(viols.items()):
-        path = os.path.join(VERIF, "replays", f"{prop}-{slug(v['clause'] + '-' + v['cls'])}-{v['run_seed']}.json")
+        path = os.path.join(OUTROOT, "replays", f"{prop}-{slug(v['clause'] + '-' + v['cls'])}-{v['run_seed']}.json")
         rp = {"property": prop, "key": key, "clause": v["clause"], "cls": v["cls"], "detail": v["detail"],
               "verif_seed": seed, "tier": tier, "batch_seed": v["batch_seed"],
               "pythonhashseed": v["pythonhashseed"], "run_seed": v["run_seed"], "engine": meta["engine"],
